@@ -165,7 +165,10 @@ Record Inv (cfg : config) (h : hst) : Prop := mkInv {
   i_spec : Forall2 (batch_matches cfg) (h_log h) (h_spec h);
   (* every offset below [h_next] was either committed (and logged) or failed *)
   i_cover : forall o, 0 <= o < h_next h -> (exists b, In b (h_log h) /\ nb_offset b = o) \/ In o (h_failed h);
-  i_failed : forall o, In o (h_failed h) -> 0 <= o < h_next h /\ ~ exists b, In b (h_log h) /\ nb_offset b = o
+  i_failed : forall o, In o (h_failed h) -> 0 <= o < h_next h /\ ~ exists b, In b (h_log h) /\ nb_offset b = o;
+  (* trimmed: nothing is stored below the mark (trimming removes whole prefixes) *)
+  i_gone : forall b, In b (h_log h) -> nb_offset b < h_lo h ->
+           kv_get (st_kv (h_st h)) (notification_key (nb_offset b)) = None
 }.
 
 Lemma last_off_snoc l b : last_off (l ++ [b]) = nb_offset b.
@@ -213,6 +216,7 @@ Proof.
   - constructor.
   - intros o H. lia.
   - intros o [].
+  - intros b [].
 Qed.
 
 (* ---------------------------------------------------------------- preservation: a request is applied *)
@@ -287,6 +291,10 @@ Proof.
     intros [b [Hb1 Hb2]]. apply in_app_or in Hb1. destruct Hb1 as [Hb1|[<-|[]]].
     + apply Hn'. exists b. split; assumption.
     + simpl in Hb2. fold o in Hr. lia.
+  - intros b Hin Hbelow. apply in_app_or in Hin. destruct Hin as [Hin|[<-|[]]]; [|simpl in Hbelow; fold o in i_lo0; lia].
+    rewrite Forall_forall in i_range0. pose proof (i_range0 b Hin) as Hr.
+    rewrite F; [apply i_gone0; assumption|apply notif_class_nk|].
+    apply nk_neq; fold o; lia.
 Qed.
 
 Lemma inv_write_err cfg h req ts st' e :
@@ -449,11 +457,44 @@ Proof.
   rewrite (wrap64_small (t + 1)) by (unfold TWO63, TWO62 in *; lia). reflexivity.
 Qed.
 
+(* the first key of the trimmer's scan is the least stored offset *)
+Lemma first_last_min cfg h f l :
+  Inv cfg h -> h_next h <= TWO62 -> first_last (st_kv (h_st h)) = Ok (Some (f, l)) ->
+  forall b, In b (h_log h) -> kv_get (st_kv (h_st h)) (notification_key (nb_offset b)) = Some (VNotif b) -> f <= nb_offset b.
+Proof.
+  intros I Hn FL b Hb G. pose proof TWO62_lt as H62.
+  pose proof (i_range _ _ I) as R. rewrite Forall_forall in R. pose proof (R b Hb) as Rb.
+  assert (Hs : sorted (st_kv (h_st h))) by apply (i_wf _ _ I).
+  unfold first_last in FL.
+  destruct (kv_range (st_kv (h_st h)) (Some first_notification_key) (Some last_notification_key)) as [|[k1 v1] tl] eqn:RG; [discriminate|].
+  assert (H1 : In (k1, v1) (kv_range (st_kv (h_st h)) (Some (notification_key 0)) (Some (notification_key 9223372036854775807))))
+    by (change (notification_key 0) with first_notification_key; change (notification_key 9223372036854775807) with last_notification_key;
+        rewrite RG; left; reflexivity).
+  destruct (range_entries _ _ _ _ _ _ I ltac:(lia) H1) as [bf [Hbf [E1 [E2 B1]]]]. subst k1 v1.
+  rewrite parse_notification_key_nk in FL by (unfold TWO63 in *; lia).
+  destruct (parse_notification_key (fst (last tl (notification_key (nb_offset bf), empty_value)))) as [lst|e]; [|discriminate].
+  assert (Ef : nb_offset bf = f) by (inversion FL; reflexivity). subst f.
+  apply kv_get_in in G; [|exact Hs].
+  assert (Hin : In (notification_key (nb_offset b), VNotif b)
+                   (kv_range (st_kv (h_st h)) (Some first_notification_key) (Some last_notification_key))).
+  { unfold kv_range, sm_range. apply filter_In. split; [exact G|]. simpl.
+    change first_notification_key with (notification_key 0). change last_notification_key with (notification_key 9223372036854775807).
+    fold (key_in_range (Some (notification_key 0)) (Some (notification_key 9223372036854775807)) (notification_key (nb_offset b))).
+    rewrite nk_in_range by (unfold TWO62, TWO63 in *; lia).
+    apply andb_true_iff. split; [apply Z.leb_le; lia|apply Z.ltb_lt; unfold TWO62 in *; lia]. }
+  rewrite RG in Hin. destruct Hin as [E|Hin]; [injection E as _ E2; rewrite E2; lia|].
+  pose proof (kv_range_sorted (st_kv (h_st h)) (Some first_notification_key) (Some last_notification_key) Hs) as Srt.
+  rewrite RG in Srt. inversion Srt as [|? ? _ F]; subst. rewrite Forall_forall in F. specialize (F _ Hin).
+  unfold klt in F. simpl in F. pose proof (R bf Hbf). rewrite cmp_nk in F by (unfold TWO62, TWO63 in *; lia).
+  rewrite Z.compare_lt_iff in F. lia.
+Qed.
+
 Lemma inv_trim cfg h now retention :
   Inv cfg h -> h_next h < TWO62 -> Inv cfg (hstep cfg h (HTrim now retention)).
 Proof.
   intros I Hn. unfold hstep. destruct (trim (h_st h) now retention) as [|t st'|e] eqn:T; try exact I.
-  destruct (trim_shape _ _ _ _ _ _ I Hn T) as [bf [bl [Hbf [Hbl [_ [Ht ->]]]]]].
+  destruct (trim_shape _ _ _ _ _ _ I Hn T) as [bf [bl [Hbf [Hbl [FL [Ht ->]]]]]].
+  pose proof (first_last_min _ _ _ _ I ltac:(lia) FL) as Hmin.
   pose proof TWO62_lt as H62. pose proof I as I0. destruct I.
   rewrite Forall_forall in i_range0. pose proof (i_range0 bf Hbf) as Rf. pose proof (i_range0 bl Hbl) as Rl.
   assert (Hs : sorted (st_kv (h_st h))) by apply i_wf0.
@@ -471,6 +512,14 @@ Proof.
   - destruct i_ver0 as [pv [Hpv [Hb Hm]]]. exists pv. split; [|split; [exact Hb|]].
     + unfold read_last_version, read_ascii_long in *. rewrite get_del_range_other; [exact Hpv|exact Hs|exact last_version_not_notif].
     + intros k e E. rewrite uv_del_range_notif in E by exact Hs. apply (Hm k e E).
+  - intros b Hb Hbelow. pose proof (i_range0 b Hb) as Rb. rewrite kv_get_del_range by exact Hs.
+    destruct (key_in_range (Some (notification_key (nb_offset bf))) (Some (notification_key (t + 1))) (notification_key (nb_offset b))) eqn:E;
+      [reflexivity|].
+    destruct (Z_lt_ge_dec (nb_offset b) (h_lo h)) as [Hold|Hnew]; [apply i_gone0; assumption|].
+    (* at or above the old mark: it was stored, hence at or above the first stored offset, and it is at most t: in the range *)
+    exfalso. pose proof (i_kept0 b Hb ltac:(lia)) as K. pose proof (Hmin b Hb K) as Hm.
+    rewrite nk_in_range in E by (unfold TWO63, TWO62 in *; lia).
+    apply andb_false_iff in E. destruct E as [E|E]; [apply Z.leb_gt in E; lia|apply Z.ltb_ge in E; lia].
 Qed.
 
 Lemma reopen_inv cfg h :
@@ -1144,6 +1193,9 @@ Proof. vm_compute. split; reflexivity. Qed.
 Definition ex_four : list hop :=
   [HWrite (put1 97 1) 10; HWrite (put1 98 2) 100; HWrite (put1 99 3) 20; HWrite (put1 100 4) 30].
 
+Definition ex_four_mono : list hop :=
+  [HWrite (put1 97 1) 10; HWrite (put1 98 2) 20; HWrite (put1 99 3) 30; HWrite (put1 100 4) 40].
+
 Theorem trim_nonmonotone_refuted :
   exists cfg ops now retention t st' b,
     ops_user ops /\ ops_small ops /\
@@ -1317,4 +1369,136 @@ Proof.
                    seen ++ (skipn k (above from (h_log (hrun cfg opsA))) ++ above from nw)).
   { rewrite E, above_app, app_assoc. unfold seen. rewrite firstn_skipn. reflexivity. }
   rewrite (above_split _ _ _ _ (i_sorted _ _ I2) Esplit). symmetry. exact Esplit.
+Qed.
+
+(* ---------------------------------------------------------------- reads in chunks, across holes *)
+(* what the store still holds: the logged batches at or above the trimming mark (exactly: Inv.i_kept / i_gone) *)
+Definition retained (h : hst) : list nbatch := filter (fun b => h_lo h <=? nb_offset b) (h_log h).
+
+Lemma range_char_gen cfg h start :
+  Inv cfg h -> h_next h <= TWO62 -> 0 <= start < TWO63 ->
+  kv_range (st_kv (h_st h)) (Some (notification_key start)) (Some last_notification_key)
+  = map nbkv (filter (fun b => start <=? nb_offset b) (retained h)).
+Proof.
+  intros I Hn Hst. pose proof TWO62_lt as H62. unfold retained.
+  pose proof (i_range _ _ I) as R. rewrite Forall_forall in R.
+  apply (sorted_ext (klt cmp_slash value)).
+  - intros x C. unfold klt in C. rewrite cmp_slash_refl in C. discriminate.
+  - intros x y C1 C2. unfold klt in *. rewrite cmp_slash_antisym, C1 in C2. discriminate.
+  - apply kv_range_sorted. apply (i_wf _ _ I).
+  - apply (sorted_map off_lt); [|apply sorted_filter, sorted_filter; apply (i_sorted _ _ I)].
+    intros x y Hx Hy Hxy. apply filter_In in Hx. apply filter_In in Hy. destruct Hx as [Hx _]. destruct Hy as [Hy _].
+    apply filter_In in Hx. apply filter_In in Hy. destruct Hx as [Hx _]. destruct Hy as [Hy _].
+    unfold klt, nbkv. simpl. pose proof (R x Hx). pose proof (R y Hy). unfold off_lt in Hxy.
+    rewrite cmp_nk by (unfold TWO62, TWO63 in *; lia). apply Z.compare_lt_iff. exact Hxy.
+  - intros [k v]. split.
+    + intro Hin. pose proof Hin as Hin2. unfold kv_range, sm_range in Hin2. apply filter_In in Hin2. destruct Hin2 as [Hkv Hr].
+      change last_notification_key with (notification_key 9223372036854775807) in Hin.
+      destruct (range_entries _ _ _ _ _ _ I ltac:(lia) Hin) as [x [Hx [-> [-> Bx]]]].
+      simpl in Hr. change last_notification_key with (notification_key 9223372036854775807) in Hr.
+      fold (key_in_range (Some (notification_key start)) (Some (notification_key 9223372036854775807)) (notification_key (nb_offset x))) in Hr.
+      rewrite nk_in_range in Hr by (unfold TWO63 in *; lia). apply andb_true_iff in Hr. destruct Hr as [Hr _].
+      apply in_map_iff. exists x. split; [reflexivity|]. apply filter_In. split; [|exact Hr]. apply filter_In. split; [exact Hx|].
+      apply Z.leb_le. destruct (Z_lt_ge_dec (nb_offset x) (h_lo h)) as [Hlt|Hge]; [|lia].
+      exfalso. pose proof (i_gone _ _ I x Hx Hlt) as G. apply kv_in_get in Hkv; [|apply (i_wf _ _ I)]. congruence.
+    + intro Hin. apply in_map_iff in Hin. destruct Hin as [x [E Hx]]. apply filter_In in Hx. destruct Hx as [Hx Hs].
+      apply filter_In in Hx. destruct Hx as [Hx Hl]. apply Z.leb_le in Hl.
+      unfold nbkv in E. inversion E; subst k v; clear E. apply Z.leb_le in Hs. pose proof (R x Hx) as Rx.
+      unfold kv_range, sm_range. apply filter_In. split.
+      * apply kv_get_in; [apply (i_wf _ _ I)|]. apply (i_kept _ _ I); [exact Hx|lia].
+      * simpl. change last_notification_key with (notification_key 9223372036854775807).
+        fold (key_in_range (Some (notification_key start)) (Some (notification_key 9223372036854775807)) (notification_key (nb_offset x))).
+        rewrite nk_in_range by (unfold TWO62, TWO63 in *; lia).
+        apply andb_true_iff. split; [apply Z.leb_le; lia|apply Z.ltb_lt; unfold TWO62 in *; lia].
+Qed.
+
+Theorem read_batches_char_gen cfg h start :
+  Inv cfg h -> h_next h <= TWO62 -> 0 <= start < TWO63 ->
+  read_notification_batches (st_kv (h_st h)) start = Ok (filter (fun b => start <=? nb_offset b) (retained h)).
+Proof.
+  intros I Hn Hst. unfold read_notification_batches. rewrite kv_bound_nk.
+  change (kv_bound last_notification_key) with (Some last_notification_key).
+  rewrite (range_char_gen cfg h start I Hn Hst). apply fold_batches.
+Qed.
+
+Lemma retained_sorted cfg h : Inv cfg h -> StronglySorted off_lt (retained h).
+Proof. intro I. apply sorted_filter, (i_sorted _ _ I). Qed.
+
+Lemma retained_in h b : In b (retained h) -> In b (h_log h).
+Proof. intro H. apply filter_In in H. apply H. Qed.
+
+Lemma skipn_length_le {A} k (l : list A) : (length (skipn k l) <= length l)%nat.
+Proof. revert l. induction k as [|k IH]; intros [|a l]; simpl; try lia. specialize (IH l). lia. Qed.
+
+(* Iterating reads of at most [limit] >= 1 batches from ANY offset [from] - whatever was trimmed, whatever offsets
+   have no batch - delivers exactly the retained batches above [from], in order, each once; then the loop waits
+   (or finds nothing left above its offset: everything above was trimmed). *)
+Theorem dispatch_limited_char cfg h limit : (1 <= limit)%nat -> Inv cfg h -> h_next h <= TWO62 ->
+  forall fuel from, -1 <= from < TWO62 -> (length (above from (retained h)) + 2 <= fuel)%nat ->
+  fst (dispatch_limited fuel limit (h_st h) from) = above from (retained h) /\
+  exists o, snd (dispatch_limited fuel limit (h_st h) from) = DWait o \/ snd (dispatch_limited fuel limit (h_st h) from) = DSpin o.
+Proof.
+  intros Hlim I Hn. pose proof TWO62_lt as H62.
+  pose proof (last_off_bound _ _ (i_range _ _ I) (i_next _ _ I)) as Hlb.
+  pose proof (i_range _ _ I) as R. rewrite Forall_forall in R.
+  induction fuel as [|f IH]; intros from Hf Hfuel; [lia|].
+  cbn [dispatch_limited]. unfold read_next_limited. rewrite wrap64_small by (unfold TWO63, TWO62 in *; lia).
+  unfold read_next_notifications. rewrite (i_notif _ _ I). cbn [negb]. rewrite (i_last _ _ I).
+  destruct (last_off (h_log h) <? from + 1) eqn:B.
+  - apply Z.ltb_lt in B. cbn [fst snd]. split; [|exists from; left; reflexivity].
+    symmetry. apply above_none. intros b Hb. apply retained_in in Hb.
+    pose proof (last_off_max _ (i_sorted _ _ I) b Hb). lia.
+  - apply Z.ltb_ge in B.
+    rewrite (read_batches_char_gen cfg h (from + 1) I Hn) by (unfold TWO63, TWO62 in *; lia).
+    rewrite above_le_filter. set (A := above from (retained h)) in *.
+    destruct (firstn limit A) as [|b0 bs] eqn:F.
+    + cbn [fst snd]. split; [|exists from; right; reflexivity].
+      destruct A as [|a A']; [reflexivity|]. destruct limit as [|l']; [lia|discriminate].
+    + assert (Esplit : above from (retained h) = (b0 :: bs) ++ skipn limit A) by (rewrite <- F; symmetry; apply firstn_skipn).
+      pose proof (above_split _ _ _ _ (retained_sorted _ _ I) Esplit) as Enext.
+      assert (Hin : forall x, In x (b0 :: bs) -> 0 <= nb_offset x < TWO62).
+      { intros x Hx. rewrite <- F in Hx. apply in_firstn in Hx. apply filter_In in Hx. destruct Hx as [Hx _].
+        apply retained_in in Hx. specialize (R x Hx). lia. }
+      assert (Hl : -1 <= last_offset (b0 :: bs) from < TWO62).
+      { apply last_offset_bound; [apply Forall_forall; exact Hin|exact Hf]. }
+      assert (Hlen : (length (above (last_offset (b0 :: bs) from) (retained h)) + 2 <= f)%nat).
+      { rewrite Enext. assert (length A = length (b0 :: bs) + length (skipn limit A))%nat
+          by (fold A in Esplit; rewrite Esplit at 1; apply app_length). simpl in H. lia. }
+      destruct (IH _ Hl Hlen) as [E1 E2].
+      destruct (dispatch_limited f limit (h_st h) (last_offset (b0 :: bs) from)) as [more stop]. cbn [fst snd] in *.
+      split; [|exact E2]. rewrite E1, Enext. symmetry. exact Esplit.
+Qed.
+
+Theorem chunked_reads_reachable cfg ops limit fuel from :
+  ops_user ops -> ops_small ops -> (1 <= limit)%nat -> -1 <= from < TWO62 ->
+  let h := hrun cfg ops in
+  (length (above from (retained h)) + 2 <= fuel)%nat ->
+  fst (dispatch_limited fuel limit (h_st h) from) = above from (retained h) /\
+  StronglySorted off_lt (above from (retained h)) /\
+  (forall b, In b (h_log h) -> (In b (above from (retained h)) <-> from < nb_offset b /\ stored_batch (h_st h) (nb_offset b) = Some b)) /\
+  exists o, snd (dispatch_limited fuel limit (h_st h) from) = DWait o \/ snd (dispatch_limited fuel limit (h_st h) from) = DSpin o.
+Proof.
+  intros Hu Hs Hl Hf. cbn zeta. intro Hfuel. destruct (inv_run cfg ops Hu Hs) as [I _].
+  pose proof (ops_small_next cfg ops Hu Hs) as Hn.
+  destruct (dispatch_limited_char cfg _ limit Hl I ltac:(lia) fuel from Hf Hfuel) as [E1 E2].
+  split; [exact E1|]. split; [apply sorted_filter, retained_sorted with (cfg := cfg); exact I|]. split; [|exact E2].
+  intros b Hb. unfold above, retained. rewrite !filter_In. unfold stored_batch. split.
+  - intros [[_ H1] H2]. apply Z.leb_le in H1. apply Z.ltb_lt in H2. split; [exact H2|].
+    rewrite (i_kept _ _ I b Hb H1). reflexivity.
+  - intros [H1 H2]. split; [split; [exact Hb|]|apply Z.ltb_lt; exact H1].
+    apply Z.leb_le. destruct (Z_lt_ge_dec (nb_offset b) (h_lo (hrun cfg ops))) as [Hlt|Hge]; [|lia].
+    rewrite (i_gone _ _ I b Hb Hlt) in H2. discriminate.
+Qed.
+
+(* a window of OFFSETS instead of a number of batches: four requests, the first three trimmed, a subscriber resuming
+   at -1 with a window of 2 offsets reads nothing although batch 3 is retained - and would read the same nothing again *)
+Theorem offset_window_read_refuted :
+  exists cfg ops window from,
+    ops_user ops /\ ops_small ops /\ -1 <= from /\ 1 <= window /\
+    read_next_window window (h_st (hrun cfg ops)) (from + 1) = Ok [] /\
+    above from (retained (hrun cfg ops)) <> [].
+Proof.
+  exists ex_cfg, (ex_four_mono ++ [HTrim 1030 1000]), 2, (-1).
+  split; [repeat constructor|]. split; [split; reflexivity|]. split; [lia|]. split; [lia|].
+  split; [vm_compute; reflexivity|]. vm_compute. discriminate.
 Qed.
